@@ -26,6 +26,13 @@ KNOWN = {
  "C17": ["a `pending` flag coalescing unparks, cleared just before parking", "SeqCst fences removed from WaitSlot", "validate() notifying only on txid+1 == finality_idx", "finality loop notifying commit before publishing finality"],
 }
 
+GLOBAL = [
+ "`GrevmExecutor::execute_incarnation` calling `evm.finalize()` only on the Ok path (stale journal accounts leak into the worker's next incarnation) - found four times already, do not use it",
+ "moving / reordering `beneficiary.invalidate()`, `mark_mv_estimate()` and `rewind_validation_to()` relative to each other inside `validate()`",
+ "changing where `validate()` draws its logical timestamp",
+ "removing or weakening the SeqCst fences in `WaitSlot` or in `validate()`",
+]
+
 def main():
     pid, rnd = sys.argv[1], sys.argv[2]
     wt = f"/tmp/wt{rnd}-{pid}"
@@ -46,7 +53,7 @@ def main():
             m = json.load(open(mp))
             if m.get("property") == pid and m.get("what"):
                 extra.append(m["what"])
-    known = KNOWN.get(pid, []) + [e for e in extra]
+    known = KNOWN.get(pid, []) + [e for e in extra] + GLOBAL
     seen, out = set(), []
     for k in known:
         if k not in seen:
